@@ -148,3 +148,21 @@ def nameStep (n : Name) (l : Bytes) : Name × Except DErr Unit :=
     match appendLabel n l with
     | .error e => (n, .error e)
     | .ok n' => (n', .ok ())
+
+/-! ## NonEmptyVec (`src/rr/subtypes.rs`; used for the TXT strings) -/
+
+structure NEV (α : Type) where
+  items : List α
+  deriving Repr
+
+/-- `impl TryFrom<Vec<T>> for NonEmptyVec<T>`: fails exactly on the empty vector -/
+def NEV.new {α : Type} (l : List α) : Except DErr (NEV α) :=
+  match l with
+  | [] => .error .txtEmpty
+  | _ :: _ => .ok ⟨l⟩
+
+/-- the documented constraint: the list is not empty -/
+def NEV.Inv {α : Type} (v : NEV α) : Prop := v.items ≠ []
+
+/-- `impl From<NonEmptyVec<T>> for Vec<T>` -/
+def NEV.toList {α : Type} (v : NEV α) : List α := v.items
